@@ -78,8 +78,18 @@ Definition x_apply (e : engine) (x : xev) : engine :=
       end
   end.
 
-Definition x_time (clk : Z) (x : xev) : Z :=
-  match x with XCheckin _ _ now _ => now | XPlan _ _ _ now => now | XUpdate now _ => now | XSetParams _ => clk end.
+(** every traveller has a clock of their own: the time of the last operation on their record.
+    (Check-ins of different travellers on the same day are not ordered in time.) *)
+Definition clock := Z -> Z.
+Definition upd (c : clock) (k : Z) (v : Z) : clock := fun k' => if k' =? k then v else c k'.
+
+Definition x_clock (c : clock) (e : engine) (x : xev) : clock :=
+  match x with
+  | XCheckin k _ now _ => upd c k now
+  | XPlan k fs te now => match plan_args e fs te now with inl _ => upd c k now | inr _ => c end
+  | XUpdate now _ => fun k => match tget (e_table e) k with Some _ => now | None => c k end
+  | XSetParams _ => c
+  end.
 
 Definition x_accepted (e : engine) (x : xev) : Prop :=
   match x with
@@ -88,30 +98,29 @@ Definition x_accepted (e : engine) (x : xev) : Prop :=
   end.
 
 (** the discipline, traveller by traveller *)
-Definition x_conforms (clk : Z) (e : engine) (x : xev) : Prop :=
-  clk <= x_time clk x /\
+Definition x_conforms (c : clock) (e : engine) (x : xev) : Prop :=
   let a := e_admin e in
   let p := a_params a in
   match x with
-  | XCheckin k f now debit => conforms clk (get_create e k now) (ECheckin f now (a_pc a) p debit)
+  | XCheckin k f now debit => conforms (c k) (get_create e k now) (ECheckin f now (a_pc a) p debit)
   | XPlan k fs te now =>
       pMaxStack p = mx /\
       match plan_args e fs te now with
       | inl (ts, te', d, tr) =>
-          conforms clk (get_create e k now) (EPlan ts te' d tr now (as_predictor (a_pred a)))
+          conforms (c k) (get_create e k now) (EPlan ts te' d tr now (as_predictor (a_pred a)))
       | inr _ => True
       end
   | XUpdate now fit =>
       now mod SecondsInDay = 0 /\ 0 <= pThreads p < 256 /\ valid_threads (pThreads p) = true /\
       keys_ok (e_table e) /\
-      forall k t, tget (e_table e) k = Some t -> conforms clk t (EUpdate p (share_of e) now)
+      forall k t, tget (e_table e) k = Some t -> conforms (c k) t (EUpdate p (share_of e) now)
   | XSetParams _ => True
   end.
 
-Fixpoint x_conforming (clk : Z) (e : engine) (xs : list xev) : Prop :=
+Fixpoint x_conforming (c : clock) (e : engine) (xs : list xev) : Prop :=
   match xs with
   | [] => True
-  | x :: r => x_conforms clk e x /\ x_conforming (x_time clk x) (x_apply e x) r
+  | x :: r => x_conforms c e x /\ x_conforming (x_clock c e x) (x_apply e x) r
   end.
 
 Fixpoint x_all_accepted (e : engine) (xs : list xev) : Prop :=
@@ -120,70 +129,75 @@ Fixpoint x_all_accepted (e : engine) (xs : list xev) : Prop :=
   | x :: r => x_accepted e x /\ x_all_accepted (x_apply e x) r
   end.
 
-(** every stored record satisfies the traveller-level invariant *)
-Definition EJ (clk : Z) (e : engine) : Prop := forall k t, tget (e_table e) k = Some t -> J mx clk t.
+(** every stored record satisfies the traveller-level invariant at its own clock *)
+Definition EJ (c : clock) (e : engine) : Prop := forall k t, tget (e_table e) k = Some t -> J mx (c k) t.
 
-Lemma EJ_mono clk clk' (e : engine) : clk <= clk' -> EJ clk e -> EJ clk' e.
-Proof. intros Hle H k t Hg. eapply J_mono; [exact Hle|exact (H k t Hg)]. Qed.
-
-Lemma view_J clk (e : engine) k now : EJ clk e -> J mx clk (get_create e k now).
+Lemma view_J (c : clock) (e : engine) k now : EJ c e -> J mx (c k) (get_create e k now).
 Proof.
   intros H. unfold get_create. destruct (tget (e_table e) k) as [t|] eqn:Hg; [exact (H k t Hg)|].
   apply new_traveller_J. exact Hmx.
 Qed.
 
-Lemma EJ_put clk clk' (e : engine) k t' a :
-  clk <= clk' -> EJ clk e -> J mx clk' t' -> EJ clk' {| e_admin := a; e_table := tput (e_table e) k t' |}.
+Lemma EJ_put (c : clock) (e : engine) k v t' a :
+  EJ c e -> J mx v t' -> EJ (upd c k v) {| e_admin := a; e_table := tput (e_table e) k t' |}.
 Proof.
-  intros Hle H Ht k' t Hg. cbn [e_table] in Hg. destruct (Z.eq_dec k' k) as [->|Hne].
+  intros H Ht k' t Hg. cbn [e_table] in Hg. unfold upd. destruct (Z.eqb_spec k' k) as [->|Hne].
   - rewrite tget_tput_same in Hg. injection Hg as <-. exact Ht.
-  - rewrite tget_tput_other in Hg by exact Hne. eapply J_mono; [exact Hle|exact (H k' t Hg)].
+  - rewrite tget_tput_other in Hg by exact Hne. exact (H k' t Hg).
 Qed.
 
-Lemma x_step clk (e : engine) x : EJ clk e -> x_conforms clk e x ->
-  x_accepted e x /\ EJ (x_time clk x) (x_apply e x).
+(** an operation that leaves the table alone: moving one traveller's clock forward keeps the invariant *)
+Lemma EJ_tick (c : clock) (e : engine) k v : c k <= v -> EJ c e -> EJ (upd c k v) e.
 Proof.
-  intros HE [Hclk Hc]. cbn zeta in Hc.
-  destruct x as [k f now debit|k fs te now|now fit|p]; cbn [x_time x_accepted x_apply] in *.
+  intros Hle H k' t Hg. unfold upd. destruct (Z.eqb_spec k' k) as [->|Hne]; [|exact (H k' t Hg)].
+  eapply J_mono; [exact Hle|exact (H k t Hg)].
+Qed.
+
+Lemma x_step (c : clock) (e : engine) x : EJ c e -> x_conforms c e x ->
+  x_accepted e x /\ EJ (x_clock c e x) (x_apply e x).
+Proof.
+  intros HE Hc. cbn zeta in Hc.
+  destruct x as [k f now debit|k fs te now|now fit|p]; cbn [x_clock x_accepted x_apply] in *.
   - (* check-in *)
-    pose proof (view_J clk e k now HE) as HJ.
-    destruct (step_J mx Hmx clk _ _ HJ Hc) as [[r Hacc] HJ']. cbn [apply_ev ev_time] in HJ'. rewrite Hacc in HJ'.
+    pose proof (view_J c e k now HE) as HJ.
+    destruct (step_J mx Hmx (c k) _ _ HJ Hc) as [[r Hacc] HJ']. cbn [apply_ev ev_time] in HJ'. rewrite Hacc in HJ'.
     unfold submit_flights. rewrite Hacc. destruct r as [t' pc']. cbn [fst snd].
-    split; [reflexivity|]. apply (EJ_put clk); assumption.
+    split; [reflexivity|]. apply EJ_put; assumption.
   - (* planning *)
     split; [exact I|]. destruct Hc as [Hstack Hc]. rewrite engine_propose_args.
-    destruct (plan_args e fs te now) as [[[[ts te'] d] tr]|er]; [|apply (EJ_mono clk); assumption].
-    pose proof (view_J clk e k now HE) as HJ.
-    destruct (step_J mx Hmx clk _ _ HJ Hc) as [_ HJ']. cbn [apply_ev ev_time] in HJ'. unfold plan in HJ'.
+    destruct (plan_args e fs te now) as [[[[ts te'] d] tr]|er]; [|exact HE].
+    pose proof (view_J c e k now HE) as HJ.
+    pose proof Hc as [Hclk _]. cbn [ev_time] in Hclk.
+    destruct (step_J mx Hmx (c k) _ _ HJ Hc) as [_ HJ']. cbn [apply_ev ev_time] in HJ'. unfold plan in HJ'.
     rewrite Hstack.
     destruct (propose (t_book (get_create e k now)) ts te' d tr now (as_predictor (a_pred (e_admin e))) mx) as [pp|er];
-      [|apply (EJ_mono clk); assumption].
-    unfold engine_make. destruct (negb (valid_predictor (a_pred (e_admin e)))); [apply (EJ_mono clk); assumption|].
+      [|apply EJ_tick; assumption].
+    unfold engine_make. destruct (negb (valid_predictor (a_pred (e_admin e)))); [apply EJ_tick; assumption|].
     destruct (make (t_book (get_create e k now)) pp (as_predictor (a_pred (e_admin e)))) as [b|er];
-      [|apply (EJ_mono clk); assumption].
-    cbn [fst]. apply (EJ_put clk); assumption.
+      [|apply EJ_tick; assumption].
+    cbn [fst]. apply EJ_put; assumption.
   - (* daily update *)
     split; [exact I|]. destruct Hc as (Hday & Hth & Hv & Hk & Hall).
     pose proof (update_all_spec e now fit Hday Hth Hv Hk) as Hs. cbn zeta in Hs.
     destruct (update_all e now fit) as [[e' ut] r]. destruct Hs as (_ & Hget & _). cbn [fst].
     intros k t' Hg. rewrite Hget in Hg. destruct (tget (e_table e) k) as [t|] eqn:Ht; [|discriminate].
     cbn [option_map] in Hg. injection Hg as <-.
-    destruct (step_J mx Hmx clk t _ (HE k t Ht) (Hall k t Ht)) as [_ HJ']. exact HJ'.
+    destruct (step_J mx Hmx (c k) t _ (HE k t Ht) (Hall k t Ht)) as [_ HJ']. exact HJ'.
   - (* parameters *)
     split; [exact I|]. destruct (set_params (e_admin e) p) as [a|er]; [|exact HE]. exact HE.
 Qed.
 
 (** THE engine-level theorem *)
-Theorem engine_history_all_accepted xs : forall clk (e : engine),
-  EJ clk e -> x_conforming clk e xs -> x_all_accepted e xs.
+Theorem engine_history_all_accepted xs : forall (c : clock) (e : engine),
+  EJ c e -> x_conforming c e xs -> x_all_accepted e xs.
 Proof.
-  induction xs as [|x r IH]; intros clk e HE Hc; cbn [x_all_accepted x_conforming] in *; [exact I|].
-  destruct Hc as [Hc Hr]. destruct (x_step clk e x HE Hc) as [Ha HE']. split; [exact Ha|]. exact (IH _ _ HE' Hr).
+  induction xs as [|x r IH]; intros c e HE Hc; cbn [x_all_accepted x_conforming] in *; [exact I|].
+  destruct Hc as [Hc Hr]. destruct (x_step c e x HE Hc) as [Ha HE']. split; [exact Ha|]. exact (IH _ _ HE' Hr).
 Qed.
 
 (** from an engine with no travellers yet *)
-Corollary fresh_engine_history_all_accepted xs clk (a : admin N) :
-  x_conforming clk {| e_admin := a; e_table := [] |} xs -> x_all_accepted {| e_admin := a; e_table := [] |} xs.
+Corollary fresh_engine_history_all_accepted xs (c : clock) (a : admin N) :
+  x_conforming c {| e_admin := a; e_table := [] |} xs -> x_all_accepted {| e_admin := a; e_table := [] |} xs.
 Proof. apply engine_history_all_accepted. intros k t Hg. discriminate Hg. Qed.
 
 End WithNum.
